@@ -76,6 +76,13 @@ static void observe(const char *op, long a, long b, const char *k, int f,
     ev_int("type", vb->type);
     ev_int("card", varintBitmapCardinality(vb));
     ev_int("empty", varintBitmapIsEmpty(vb));
+    {
+        varintBitmapStats st;
+        memset(&st, 0xEE, sizeof(st));
+        varintBitmapGetStats(vb, &st);
+        ev_int("scard", st.cardinality);
+        ev_int("sbytes", (long long)st.sizeBytes == (long long)varintBitmapSizeBytes(vb));
+    }
     /* ToArray into a buffer big enough for the whole universe */
     uint32_t n = 0;
     int of = GUARDED(n = varintBitmapToArray(vb, scratch));
@@ -186,6 +193,8 @@ static varintBitmap *apply(varintBitmap *vb, const char *op, long a, long b,
                 f = GUARDED(varintBitmapAddMany(vb, L[i].v, (uint32_t)L[i].n));
             }
         }
+    } else if (!strcmp(op, "Optimize")) {
+        f = GUARDED(varintBitmapOptimize(vb));
     } else if (!strcmp(op, "Clone")) {
         varintBitmap *c = NULL;
         f = GUARDED(c = varintBitmapClone(vb));
@@ -277,11 +286,11 @@ static void run_walk(char *spec) {
 static void random_walk(void) {
     static const char *ops[] = {"Add", "Remove", "AddRange", "RemoveRange",
                                 "AddRange", "Add", "Clone", "Codec", "Clear",
-                                "Or", "And", "Xor", "AndNot", "RAndNot", "AddMany"};
+                                "Or", "And", "Xor", "AndNot", "RAndNot", "AddMany", "Optimize"};
     char buf[4096];
     size_t pos = 0;
     for (int s = 0; s < 40; s++) {
-        const char *op = ops[rng_u64() % 15];
+        const char *op = ops[rng_u64() % 16];
         long a = 0, b = 0;
         const char *k = "-";
         if (!strcmp(op, "Add") || !strcmp(op, "Remove")) {
@@ -299,7 +308,7 @@ static void random_walk(void) {
             }
         } else if (!strcmp(op, "AddMany")) {
             k = L[rng_u64() % (unsigned)nL].name;
-        } else if (!strcmp(op, "Clone") || !strcmp(op, "Codec") || !strcmp(op, "Clear")) {
+        } else if (!strcmp(op, "Clone") || !strcmp(op, "Codec") || !strcmp(op, "Clear") || !strcmp(op, "Optimize")) {
             if (!strcmp(op, "Clear") && rng_u64() % 3) {
                 op = "Codec";
             }
